@@ -20,7 +20,7 @@ RULE_NAME = {
     ("apirules", "check_escape"): "ESCAPE", ("apirules", "check_scanner"): "SCANNER", ("twin", "check_twin"): "TWIN",
     ("twin", "check_xconfig"): "XCONFIG", ("twin", "check_possib"): "POSSIB", ("twin", "check_hashiter"): "HASHITER",
     ("twin", "check_cfginv"): "CFGINV", ("twin", "check_countsib"): "COUNTSIB", ("twin", "check_unfoldsib"): "UNFOLDSIB",
-    ("twin", "check_surrsib"): "SURRSIB", ("peeked", "check"): "PEEKED", ("classesc", "check"): "CLASSESCB", ("nestedcover", "check"): "NESTEDCOVER", ("arm", "check_removeempty"): "REMOVEEMPTY", ("sibpos", "check_crossimpl"): "CROSSIMPL", ("coverall", "check"): "COVERALL", ("flagsrc", "check"): "FLAGSRC",
+    ("twin", "check_surrsib"): "SURRSIB", ("peeked", "check"): "PEEKED", ("indexguard", "check"): "INDEXGUARD", ("bitpack", "check"): "BITPACK", ("rewind", "check"): "REWIND", ("classesc", "check"): "CLASSESCB", ("nestedcover", "check"): "NESTEDCOVER", ("arm", "check_removeempty"): "REMOVEEMPTY", ("sibpos", "check_crossimpl"): "CROSSIMPL", ("coverall", "check"): "COVERALL", ("flagsrc", "check"): "FLAGSRC",
 }
 
 
